@@ -47,7 +47,7 @@ func (w *c10Builder) ws() {
 }
 
 var c10InnerKeys = []string{"a", "b", "type", "log", "asset", "version", "creator", "entries", "pages", "k y", ""}
-var c10Scalars = []string{"1", "-2.5e3", "true", "false", "null", `"x"`, `""`, `"Feature"`, `"2.0"`, `"1.0"`, `"version"`, `"a,b]}"`, `"é\n"`, `"é"`}
+var c10Scalars = []string{"1", "-2.5e3", "true", "false", "null", `"x"`, `""`, `"type"`, `"log"`, `"asset"`, `"log.version"`, `"Feature"`, `"2.0"`, `"1.0"`, `"version"`, `"a,b]}"`, `"é\n"`, `"é"`}
 
 // value writes an arbitrary JSON value; returns true if it is a non-empty container.
 func (w *c10Builder) value(depth int) bool {
@@ -203,6 +203,11 @@ func c10Gen(t *rapid.T) c10Case {
 				`"asset":{"version":"3.0"}`, `"asset":{"version":2.0}`, `"asset":{"x":{"version":"2.0"}}`, `"asset":[{"version":"2.0"}]`, `"asset":{"version":"2.0.0"}`,
 				`"asset":{"version":["2.0"]}`, `"asset":{"Version":"2.0"}`, `"asset":"2.0"`,
 				`"version":"2.0"`, `"version":1`, `"entries":[]`, `"creator":{}`,
+				// one key that spells a whole path; values and array items spelled like the deciding keys
+				`"log.version":"1.2"`, `"log.creator":{}`, `"log.entries":[]`, `"log/version":1`, `"log version":1`, `"logversion":1`, `"log,version":1`, `"log:version":1`,
+				`"asset.version":"2.0"`, `"asset/version":"2.0"`, `"asset version":"1.0"`, `"assetversion":"2.0"`, `".type":"Feature"`, `"type.":"Point"`, `"a.type":"Feature"`,
+				`"sink":"log"`, `"tags":["asset"]`, `"required":["type","coordinates"]`, `"k":"type"`, `"note":"asset"`, `"kinds":["log","asset","type"]`,
+				`"quoted":"x\"type\":\"Feature\""`, `"quoted":"\"log\":{\"version\":1}"`, `"q":"\"asset\""`,
 				`"x":{"type":"Feature"}`, `"x":[{"type":"Feature"}]`, `"x":{"log":{"version":1}}`, `"x":{"asset":{"version":"2.0"}}`,
 			}).Draw(t, "la")
 			w.s(la)
